@@ -357,7 +357,11 @@ func Run(r *report.Run) int {
 										// R2, R3 on the local-ACL entry point (it receives no resource name, so R1 does not apply)
 										if authz {
 											if wantAuth := decide(c.auth, false, "", acc, a); wantAuth.forbidden {
-												t.violate(r, "C34:Authorize:"+wantAuth.why+":allowed", detail)
+												t.violate(r, "C34:Authorize:"+wantAuth.why+":allowed", func() map[string]any {
+												m := detail()
+												m["rule"], m["statement_forbids"], m["note"] = wantAuth.why, true, "Authorize receives no resource name: judged on access and caller only"
+												return m
+											})
 											}
 										}
 										// R4: every UI-facing answer equals the enforcement decision
